@@ -54,33 +54,19 @@ Definition ns_class (p : parser) (obj : val) (o : oracle) : N :=
   | None => 0%N
   end.
 
-(* a failed Union member may have rewritten a container in place somewhere in this case: the pure model
-   is then not compared (Model/C10Adapt.v, may_residue) *)
-Definition ns_residue (p : parser) (obj : val) (o : oracle) (first : outcome (list val)) : bool :=
-  let kr := key_may_residue (jl o) (pv o) (ik o) in
-  existsb (fun d => kr (d_ty d) (d_default d)) p
-  || match flatten p [] obj with
-     | Some asg => existsb (fun kv => match find_decl p (fst kv) with Some d => kr (d_ty d) (snd kv) | None => false end) asg
-     | None => false
-     end
-  || match first with
-     | Accepted w => exists2b (fun d x => kr (d_ty d) x) p w
-     | _ => false
-     end.
-
 Definition judge1 (c : case) : verdict :=
   match c with
   | NsCase p obj o first valid again =>
       let parse := parse_flat (jl o) (pv o) (ik o) p in
       {| v_model :=
-           nodup_keys p && (ns_residue p obj o first ||
+           nodup_keys p &&
            outcome_eqb cfg_eqb (to_outcome (parse_obj (jl o) (pv o) (ik o) p obj)) first
            && match first with
               | Accepted w =>
                   Bool.eqb valid (validate_all (jl o) (pv o) (ik o) p w)
                   && forallb (fun a => outcome_eqb cfg_eqb (to_outcome (parse (as_assignments p w))) a) again
               | _ => true
-              end);
+              end;
          v_class := ns_class p obj o;
          v_spec := fixed_point_spec cfg_eqb first valid again |}
   | XCase sk first valid again =>
